@@ -4,6 +4,7 @@ package main
 
 import (
 	"fmt"
+	"math/big"
 	"go/token"
 	"go/types"
 	"os"
@@ -38,6 +39,8 @@ type World struct {
 	modelTargets map[string]func(c *Ctx) []havocTarget
 	Overlay   map[string][]byte
 	mutable   map[string]bool
+	subOffsets map[string]int
+	embedded   map[string]bool
 	errGlobals map[string]int
 }
 
@@ -195,7 +198,9 @@ func (w *World) VerifyFunc(fn *ssa.Function) *Ctx {
 	f := c.newFrame(fn, true)
 	st := &State{H: map[string]string{}}
 	alloc0 := c.heapGet(st, allocHeap, "Int")
-	c.assert("(> " + alloc0 + " 100000)")
+	// the allocation frontier is a multiple of the stride, above every global
+	c.declConst("alloc0$k", "Int")
+	c.assert("(and (= " + alloc0 + " (* |alloc0$k| " + refStride + ")) (> |alloc0$k| 1000000))")
 	f.curGuard = "true"
 	declare := func(name string, t types.Type, v ssa.Value) {
 		nm := "p$" + name
@@ -325,6 +330,8 @@ func (w *World) VerifyFunc(fn *ssa.Function) *Ctx {
 		}
 		o := &Obligation{Name: shortFuncKey(fn) + "#cover[return]", Kind: "cover", Func: funcKey(fn), Guard: or(gs...), Goal: "false", Prefix: len(c.Log), Ctx: c, ExpectSat: true, Text: "some return reachable"}
 		c.Obls = append(c.Obls, o)
+		o2 := &Obligation{Name: shortFuncKey(fn) + "#consistent[return]", Kind: "cover", Func: funcKey(fn), Guard: or(gs...), Goal: "false", Prefix: len(c.Log), Ctx: c, Consistency: true, Text: "assumptions at the returns (axioms, callee contracts, invariants) are not contradictory"}
+		c.Obls = append(c.Obls, o2)
 	}
 	return c
 }
@@ -512,4 +519,72 @@ func (c *Ctx) emitAxioms() {
 			changed = true
 		}
 	}
+}
+
+// subOffset: the offset of an embedded struct field above its owner (a
+// distinct power of two per (struct, field), below the reference stride).
+func (w *World) subOffset(fn string) string {
+	if w.subOffsets == nil {
+		w.subOffsets = map[string]int{}
+	}
+	k, ok := w.subOffsets[fn]
+	if !ok {
+		k = len(w.subOffsets)
+		w.subOffsets[fn] = k
+	}
+	if k >= 58 {
+		panic("too many embedded struct fields for the reference encoding")
+	}
+	return new(big.Int).Lsh(big.NewInt(1), uint(k)).String()
+}
+
+// embeddedTypes: struct types that occur as a by-value field (or array/slice
+// element) of another type. A pointer to any other struct type always
+// designates an allocated (top-level) object.
+func (w *World) embeddedTypes() map[string]bool {
+	if w.embedded != nil {
+		return w.embedded
+	}
+	w.embedded = map[string]bool{}
+	seen := map[types.Type]bool{}
+	var visit func(t types.Type)
+	visit = func(t types.Type) {
+		if seen[t] {
+			return
+		}
+		seen[t] = true
+		switch u := t.Underlying().(type) {
+		case *types.Struct:
+			for i := 0; i < u.NumFields(); i++ {
+				ft := u.Field(i).Type()
+				if isStruct(ft) {
+					w.embedded[types.TypeString(ft, nil)] = true
+				}
+				visit(ft)
+			}
+		case *types.Pointer:
+			visit(u.Elem())
+		case *types.Slice:
+			if isStruct(u.Elem()) {
+				w.embedded[types.TypeString(u.Elem(), nil)] = true
+			}
+			visit(u.Elem())
+		case *types.Array:
+			if isStruct(u.Elem()) {
+				w.embedded[types.TypeString(u.Elem(), nil)] = true
+			}
+			visit(u.Elem())
+		case *types.Map:
+			visit(u.Key())
+			visit(u.Elem())
+		}
+	}
+	for _, p := range w.Prog.AllPackages() {
+		for _, m := range p.Members {
+			if tn, ok := m.(*ssa.Type); ok {
+				visit(tn.Type())
+			}
+		}
+	}
+	return w.embedded
 }
